@@ -77,6 +77,7 @@ func (m *SubscribeMessage) AddTopic(topic []byte, qos byte) error {
 
 	if found {
 		m.qos[i] = qos
+		m.dirty = true
 		return nil
 	}
 
